@@ -2,7 +2,7 @@
    Print Assumptions. Models: coq/C07/Model.v (tied to /repo by the correspondence check). *)
 From Coq Require Import List NArith ZArith Bool.
 From LTV Require Import Common.Bytes.
-From LTV.C07 Require Import Model Proofs ProofsDec ProofsSafe ProofsRT ProofsFaith ProofsAgree ProofsSkip ProofsRTS.
+From LTV.C07 Require Import Model Proofs ProofsDec ProofsSafe ProofsRT ProofsFaith ProofsAgree ProofsSkip ProofsRTS WriteBuf ProofsWB ProofsWB2.
 Import ListNotations.
 Local Open Scope N_scope.
 
@@ -108,3 +108,63 @@ Theorem decode_stream_faithful_refuted :
   exists l v fl r, decode_stream l = Ok (v, fl) r /\ decode_c l = Reject.
 Proof. exists [105; 32; 49; 101], (VInt 1), false, []. split; vm_compute; reflexivity. Qed.
 Print Assumptions decode_stream_faithful_refuted.
+
+(* ---------------------------------------------------------------- buffered writer (WriteBuf.v)
+   object_write_bencode_c with a bounded buffer and a flush callback that hands the SAME buffer back
+   (object_write_to_stream on a good stream, _to_sha1, _to_size): for EVERY tree and EVERY buffer
+   capacity C > 0 the writer finishes without error, nothing stays pending, the concatenation of the
+   chunks the callback saw is exactly enc v — flush-chunking never changes the byte stream — and the
+   chunks are C bytes each except the last, which has 1..C bytes (w_chunks is most-recent-first). *)
+Theorem write_chunking_preserves_stream : forall (C : nat) v, (0 < C)%nat ->
+  let st := wb_run SinkKeep C v in
+  w_status st = WbOk /\ w_pend st = [] /\ concat (rev (w_chunks st)) = enc v /\ chunks_shape C (w_chunks st).
+Proof. exact ProofsWB.wb_keep_stream. Qed.
+Print Assumptions write_chunking_preserves_stream.
+
+Theorem write_chunking_irrelevant : forall (C1 C2 : nat) v, (0 < C1)%nat -> (0 < C2)%nat ->
+  concat (rev (w_chunks (wb_run SinkKeep C1 v))) = concat (rev (w_chunks (wb_run SinkKeep C2 v))).
+Proof. exact ProofsWB.wb_keep_chunking_irrelevant. Qed.
+Print Assumptions write_chunking_irrelevant.
+
+Example write_chunking_nonvacuous :
+  wb_encode SinkKeep 3%nat (VList [VInt 10; VStr [97; 98]]) = (WbOk, [[108; 105; 49]; [48; 101; 50]; [58; 97; 98]; [101]]) /\
+  enc (VList [VInt 10; VStr [97; 98]]) = [108; 105; 49; 48; 101; 50; 58; 97; 98; 101].
+Proof. split; vm_compute; reflexivity. Qed.
+
+(* object_write_bencode(first, last, object) (callback object_write_to_buffer): whenever the encoding
+   fits the buffer, the call returns normally and the buffer holds exactly enc v. *)
+Theorem write_to_buffer_fits : forall (C : nat) v, (length (enc v) <= C)%nat ->
+  let st := wb_run SinkBuffer C v in
+  w_status st = WbOk /\ w_pend st = [] /\ concat (rev (w_chunks st)) = enc v.
+Proof. exact ProofsWB.wb_buffer_fits. Qed.
+Print Assumptions write_to_buffer_fits.
+
+(* The converse — an encoding that does NOT fit raises internal_error("buffer overflow") — is FALSE of
+   the code: if the buffer is filled exactly by object_write_bencode_c_char and exactly one more
+   _c_char follows, object_write_to_buffer hands back the empty buffer, the byte is dropped and the call
+   returns normally with a truncated encoding ("le" into 1 byte -> "l"; "i0e" into 2 bytes -> "i0").
+   Replayed on the real code by the B cases of the correspondence run (oracle class
+   write-buffer-silent-truncation). *)
+Theorem write_to_buffer_overflow_detected_refuted : exists (C : nat) v,
+  (C < length (enc v))%nat /\ w_status (wb_run SinkBuffer C v) = WbOk /\
+  concat (rev (w_chunks (wb_run SinkBuffer C v))) = firstn C (enc v).
+Proof. exact ProofsWB.wb_buffer_overflow_detected_refuted. Qed.
+Print Assumptions write_to_buffer_overflow_detected_refuted.
+
+Example write_to_buffer_examples :
+  wb_encode SinkBuffer 2%nat (VInt 0) = (WbOk, [[105; 48]]) /\
+  wb_encode SinkBuffer 2%nat (VInt 5) = (WbInternal, [[105; 53]]) /\
+  wb_encode SinkBuffer 3%nat (VInt 5) = (WbOk, [[105; 53; 101]]) /\
+  (* more than one byte can be lost: "5:hello" into 2 bytes returns normally with "5:" *)
+  wb_encode SinkBuffer 2%nat (VStr [104; 101; 108; 108; 111]) = (WbOk, [[53; 58]]).
+Proof. repeat split; vm_compute; reflexivity. Qed.
+
+(* ... but for EVERY capacity, fitting or not, object_write_bencode(first, last, object) ends normally or
+   with internal_error (the string loop never runs out of fuel), writes at most C bytes — nothing behind
+   `last` — and what it wrote is a prefix of the encoding. (`written` = chunks handed to the callback
+   followed by the bytes still pending in the buffer.) *)
+Theorem write_to_buffer_prefix : forall (C : nat) v,
+  let st := wb_run SinkBuffer C v in
+  w_status st <> WbFuel /\ (length (written st) <= C)%nat /\ exists k, written st = firstn k (enc v).
+Proof. exact ProofsWB2.wb_buffer_prefix. Qed.
+Print Assumptions write_to_buffer_prefix.
